@@ -904,6 +904,70 @@ pub mod lrufx {
     }
 }
 
+// ---------------------------------------------------------------- R-VIEW / R-GUARD.cursor
+pub mod viewfx {
+    use super::*;
+    use std::collections::HashMap;
+    pub struct Region {
+        pub ptr: usize,
+        pub size: usize,
+        pub actual_size: usize,
+    }
+    pub struct A {
+        pub cache: HashMap<usize, Vec<(usize, usize)>>,
+    }
+    impl A {
+        pub fn ok_alloc(&mut self, size: usize) -> Region {
+            let actual_size = (size + 4095) & !4095;
+            if let Some(v) = self.cache.get_mut(&actual_size) {
+                if let Some((ptr, _)) = v.pop() {
+                    return Region { ptr, size, actual_size };
+                }
+            }
+            Region { ptr: 0, size, actual_size }
+        }
+    }
+    pub struct B {
+        pub cache: HashMap<usize, Vec<(usize, usize)>>,
+    }
+    impl B {
+        pub fn bad_alloc(&mut self, size: usize) -> Region {
+            let actual_size = (size + 4095) & !4095;
+            if let Some(v) = self.cache.get_mut(&actual_size.next_power_of_two()) {
+                if let Some((ptr, region_size)) = v.pop() {
+                    return Region { ptr, size, actual_size: region_size };
+                }
+            }
+            Region { ptr: 0, size, actual_size }
+        }
+    }
+    pub struct Chunk {
+        pub top: usize,
+        pub capacity: usize,
+        pub used: usize,
+    }
+    impl Chunk {
+        pub fn ok_carve(&mut self, size: usize) -> Result<usize> {
+            if self.top + size > self.capacity {
+                return Err(ZiporaError("full"));
+            }
+            let off = self.top;
+            self.top += size;
+            self.used += size;
+            Ok(off)
+        }
+        pub fn bad_carve(&mut self, size: usize) -> Result<usize> {
+            if self.used + size > self.capacity {
+                return Err(ZiporaError("full"));
+            }
+            let off = self.top;
+            self.top += size;
+            self.used += size;
+            Ok(off)
+        }
+    }
+}
+
 // ---------------------------------------------------------------- R-VARIANT
 pub mod variant {
     pub enum Storage {
